@@ -103,3 +103,24 @@ Proof.
 Qed.
 Theorem proximal_operator_no_const {F} (Op : fops F) conv order specs aux X : proximal_operator Op conv None order specs aux X = Ok X.
 Proof. reflexivity. Qed.
+
+(* number of dimensions: with one or two dimensions nothing is refused; in general the call raises exactly when validate_constraints
+   raises or the selected operator refuses the number of dimensions (monotonicity / unimodality / simplex / soft_sparsity with ndim > 2) *)
+Theorem proximal_operator_nd_le2 {F} (Op : fops F) conv ndim n_const order specs aux X : (1 <= ndim <= 2)%nat ->
+  proximal_operator_nd Op conv ndim n_const order specs aux X = proximal_operator Op conv n_const order specs aux X.
+Proof.
+  intros [H1 H2]. unfold proximal_operator_nd, proximal_operator. destruct (selected_pop conv n_const order specs aux) as [o|]; [|reflexivity].
+  assert (E : ndim_ok o ndim = true).
+  { destruct o; cbn [ndim_ok]; try reflexivity; apply andb_true_intro; split; apply Nat.leb_le; assumption. }
+  rewrite E. reflexivity.
+Qed.
+Theorem proximal_operator_nd_raises_iff {F} (Op : fops F) conv ndim n_const order specs aux X :
+  proximal_operator_nd Op conv ndim n_const order specs aux X = Err <->
+  selected_pop conv n_const order specs aux = Err \/ exists o, selected_pop conv n_const order specs aux = Ok o /\ ndim_ok o ndim = false.
+Proof.
+  unfold proximal_operator_nd. destruct (selected_pop conv n_const order specs aux) as [o|]; split.
+  - destruct (ndim_ok o ndim) eqn:E; intros H; [discriminate H|]. right. exists o. split; [reflexivity | exact E].
+  - intros [H|(o' & H & E)]; [discriminate H|]. injection H as <-. rewrite E. reflexivity.
+  - intros _. left. reflexivity.
+  - reflexivity.
+Qed.
